@@ -30,6 +30,10 @@ PARTIAL = [
     "nongap() of a gap-free map and get_coordinates() with >= 2 gaps and a short residue tail: violated by the pinned code "
     "(nongap_refuted, get_coordinates_refuted); proved on the rest of the domain for all lengths (nongap_spec_partial, "
     "get_coordinates_spec_partial); the corrected methods only for strings of length <= 10 (listings_v2_bounded_partial)",
+    "composition with an inner span that overhangs the map (negative start / end beyond the length, forward or reversed): "
+    "compared with the model and decided by the position oracle over every map of <= 2 spans on a parent of length 3 x every "
+    "inner span in [-2, len + 2] in both directions, no unbounded theorem (composition_spec / composition_v2_spec need the inner "
+    "map inside [0, len]); the rule before the repair of C08-6 violates it for spans wholly outside (remap_with_wholly_outside_refuted)",
     "FeatureMap nucleic_reversed and __mul__: the cell-by-cell statement is proved for forward maps; for maps with reversed "
     "spans only cell count and 'inside the parent' (the method discards strand, as documented)",
     "merge_maps: parent_length=None only; termini_unknown, tidy_start/tidy_end/value, serialisation: not modelled",
